@@ -5,7 +5,8 @@
 
    Vocabulary: [encode data size red] models fragmentation.Encode (App/FragEncode.v,
    fuel FUEL = 64 for the PRBS retry loop, [encode_with fuel] the same with explicit
-   fuel); [valid data size] := 0 < size and size divides len(data);
+   fuel); [valid data size] := 0 < size, data not empty, and size divides len(data); [fits data] :=
+   len(data) <= 2^48 (true of every Go slice);
    [spec_encode], [spec_matrix_line], [spec_parity_lines], [spec_generator] are the
    TS004 transcription (App/FragSpec.v); [chunks n k data] the n uncoded fragments of
    k bytes; [comb k l rows] the XOR of the rows selected by the 0/1 vector l;
@@ -21,7 +22,7 @@ Open Scope N_scope.
 
 (* the model returns exactly the fragments TS004 defines, for every valid input
    (OutOfFuel exactly when the specification's while loop exceeds the same bound) *)
-Theorem C19_matches_TS004 : forall fuel data size red, valid data size ->
+Theorem C19_matches_TS004 : forall fuel data size red, valid data size -> fits data ->
   N.of_nat (length data / Z.to_nat size) <= 65536 ->
   encode_with fuel data size red =
   match spec_encode fuel data (Z.to_nat size) (Z.to_nat red) with
@@ -34,7 +35,7 @@ Print Assumptions C19_matches_TS004.
 (* systematic: the first n fragments are the data rows in order (their
    concatenation is the block), followed by [red] parity fragments, parity
    fragment y being the XOR of the data rows selected by matrix_line(y+1, n) *)
-Theorem C19_systematic_parity : forall fuel data size red frags, valid data size ->
+Theorem C19_systematic_parity : forall fuel data size red frags, valid data size -> fits data ->
   N.of_nat (length data / Z.to_nat size) <= 65536 ->
   encode_with fuel data size red = Ok frags ->
   let k := Z.to_nat size in
@@ -50,7 +51,7 @@ Print Assumptions C19_systematic_parity.
 
 (* linear over XOR *)
 Theorem C19_linear : forall fuel d1 d2 size red fr1 fr2,
-  length d1 = length d2 -> valid d1 size -> N.of_nat (length d1 / Z.to_nat size) <= 65536 ->
+  length d1 = length d2 -> valid d1 size -> fits d1 -> N.of_nat (length d1 / Z.to_nat size) <= 65536 ->
   encode_with fuel d1 size red = Ok fr1 -> encode_with fuel d2 size red = Ok fr2 ->
   encode_with fuel (xor_bytes d1 d2) size red = Ok (xor_rows fr1 fr2).
 Proof. exact encode_linear. Qed.
@@ -59,7 +60,7 @@ Print Assumptions C19_linear.
 (* recoverability: for any subset [kept] of the fragments whose generator rows
    have a left inverse T over GF(2) (full rank), T applied to the received
    fragments is the list of data rows, whose concatenation is the block *)
-Theorem C19_recover : forall fuel data size red frags G kept T, valid data size ->
+Theorem C19_recover : forall fuel data size red frags G kept T, valid data size -> fits data ->
   N.of_nat (length data / Z.to_nat size) <= 65536 ->
   encode_with fuel data size red = Ok frags ->
   let k := Z.to_nat size in
@@ -72,14 +73,18 @@ Theorem C19_recover : forall fuel data size red frags G kept T, valid data size 
 Proof. exact encode_recover. Qed.
 Print Assumptions C19_recover.
 
-(* invalid sizes (zero, negative, non-dividing) are errors ... *)
+(* invalid sizes (zero, negative, non-dividing) and the empty block are errors ... *)
 Theorem C19_invalid_size_is_error : forall fuel data size red, ~ valid data size ->
   encode_with fuel data size red = Err.
 Proof. exact encode_invalid. Qed.
 Print Assumptions C19_invalid_size_is_error.
 
-(* ... and no input at all makes the encoder panic (after fix 9813ac2) *)
-Theorem C19_no_panic : forall fuel data size red, encode_with fuel data size red <> Panic.
+(* ... and no input makes the encoder panic (after fixes 9813ac2 and 10583ce): every block a Go
+   program can hold ([fits]: at most MAXALLOC = 2^48 bytes, the runtime's allocation limit, beyond
+   which make() panics with "len out of range"), every size, every redundancy - the empty block
+   included, which is refused: a fragment size is never larger than the block, so every row that is
+   allocated is no larger than the data that already exists *)
+Theorem C19_no_panic : forall fuel data size red, fits data -> encode_with fuel data size red <> Panic.
 Proof. exact encode_no_panic. Qed.
 Print Assumptions C19_no_panic.
 
@@ -97,13 +102,13 @@ Theorem C19_retry_bound : forall n M, M <= 300 -> 1 <= n <= 100 ->
 Proof. exact line_terminates. Qed.
 Print Assumptions C19_retry_bound.
 
-Theorem C19_terminates : forall data size red, valid data size ->
+Theorem C19_terminates : forall data size red, valid data size -> fits data ->
   N.of_nat (length data / Z.to_nat size) <= 300 -> (red <= 100)%Z ->
   exists frags, encode data size red = Ok frags.
 Proof. exact encode_terminates. Qed.
 Print Assumptions C19_terminates.
 
-Theorem C19_terminates_not_power_of_two : forall data size red, valid data size ->
+Theorem C19_terminates_not_power_of_two : forall data size red, valid data size -> fits data ->
   N.of_nat (length data / Z.to_nat size) <= 65536 ->
   spec_pow2 (N.of_nat (length data / Z.to_nat size)) = false ->
   exists frags, encode data size red = Ok frags.
@@ -119,8 +124,9 @@ Example C19_example :
   /\ (exists G T, spec_generator FUEL 4 3 = Some G
         /\ left_inverse 4 (select [4; 1; 3; 0; 6]%nat G []) = Some T
         /\ mat_mul 4 T (select [4; 1; 3; 0; 6]%nat G []) = identity 4)
-  /\ encode [1; 2; 3; 4] 0 1 = Err /\ encode [1; 2; 3; 4] (-2) 1 = Err /\ encode [1; 2; 3; 4] 3 1 = Err.
+  /\ encode [1; 2; 3; 4] 0 1 = Err /\ encode [1; 2; 3; 4] (-2) 1 = Err /\ encode [1; 2; 3; 4] 3 1 = Err
+  /\ encode [] (2 ^ 63 - 1) 1 = Err.
 Proof.
-  split; [split; [reflexivity|reflexivity]|]. split; [reflexivity|]. split; [|repeat split].
+  split; [split; [reflexivity|split; [cbn; repeat constructor|reflexivity]]|]. split; [reflexivity|]. split; [|repeat split].
   eexists. eexists. split; [vm_compute; reflexivity|]. split; vm_compute; reflexivity.
 Qed.
